@@ -239,6 +239,29 @@ CLAIMED = {
              "containment and the DXF / SVG text layers are exercised not modelled (partial). Two defects "
              "repaired (Arc.length doubled; dict form could not be re-imported, see C08).",
         technique="Lean 4 proof (shoelace / affine / arc-centre identities over Q) + differential correspondence"),
+    "C15": dict(
+        category="proof", design_ref="DESIGN.md 5 C15",
+        text="Lean 4 theorems over exact rationals: the two triangles revolve emits for one profile segment "
+             "between two slice directions contribute cross(u,v)*(r_k + r_k+1)*(h_k+1 r_k - h_k r_k+1) to six "
+             "times the volume; summed over any profile and any list of slice directions (any section count, "
+             "full or partial turn, caps contribute nothing) the tessellated volume is (sum of sin of the "
+             "slice angles) x profile sum; rotation about the axis leaves it unchanged; the profile sums of "
+             "cylinder / cone / annulus give V = (n sin(2 pi / n) / 2) R^2 h etc.; every index the face "
+             "arithmetic produces is a valid vertex and each slice has the same number of faces; the box "
+             "table (regenerated from creation.json each run) is closed and consistently wound, its volume is "
+             "the product of the extents for every extents and its bounds are +-extents/2; the icosahedron "
+             "table is closed and stays closed under every number of subdivisions (icosphere). Tied to the "
+             "code by a differential run: revolve faces against the Lean index model, volumes against the "
+             "Lean formula on the same directions, box vertices / volume against the model, edge pairing "
+             "checked independently, analytic volume / area / bounds, section counts 1..40, partial angles "
+             "with caps, polygons with holes and every engine, rigid and mirrored placements, sequences of "
+             "primitive parameter edits against a freshly built primitive.",
+        note="Trusted: Lean kernel (+propext/Classical.choice/Quot.sound); polygon triangulation engines judged by "
+             "output. Partial: closedness of revolve / extrusions for all counts is certified per explored "
+             "parameter set (edge pairing computed on the real faces), not proved for all counts; area of "
+             "curved shapes and inertia are compared numerically only. Two defects repaired (sections=1 "
+             "IndexError, mirrored placement inverted).",
+        technique="Lean 4 proof (polynomial volume identities, generated tables decided by the kernel) + differential correspondence"),
     "C16": dict(
         category="proof", design_ref="DESIGN.md 5 C16",
         text="Lean 4 theorems over exact rationals: soundness of executable checkers that are run on the real "
